@@ -460,7 +460,10 @@ fn endpoint_call(out: &mut Out, rng: &mut Rng, st: &Sync) {
     // instruction counts: boundary values, or any small count (most are not multiples of ten)
     let instructions = if rng.chance(1, 2) { rng.range(1, 2_000) } else { *rng.pick(&[0u64, 9, 10, 11, 1_000, 99_999, 5_000_000]) };
     let addrs = st.case.world.addresses();
-    let (addr_text, addr_tok) = if rng.chance(1, 6) { ("garbage".to_string(), "bad".to_string()) } else { let a = rng.pick(&addrs).clone(); (a.clone(), format!("a:{}", a)) };
+    let _ = &addrs;
+    // the request string in all its variants (other spellings, corrupted, other networks), parsed by
+    // the model on its own
+    let (addr_text, addr_tok, _) = crate::ledger::addr_arg(&st.case.world, rng);
     let tipc = can::with_state(|s| can::unstable_blocks::get_main_chain_length(&s.unstable_blocks)) as u32;
     let cc = rng.range(0, tipc as u64 + 1) as u32;
     let tip = can::with_state(can::state::main_chain_height);
